@@ -242,7 +242,11 @@ func allFinalized(sts []*objState) bool {
 }
 
 // checkReleased requires every object released so far to be finalized after
-// at most 10 rounds of GC + sleep.
+// at most 10 quick rounds of GC + sleep, followed - only if something is still
+// outstanding - by up to 60 slower rounds (about 3 s): a finalizer that is merely late
+// because the machine is busy or a collector goroutine is hogging the finalizer queue
+// must not be reported as retention; storage that really keeps the reference never
+// gets finalized however long we wait.
 //
 //go:noinline
 func (h *hist) checkReleased(final bool) {
@@ -251,6 +255,11 @@ func (h *hist) checkReleased(final bool) {
 	for round := 0; round < 10 && !allFinalized(sts); round++ {
 		runtime.GC()
 		time.Sleep(time.Millisecond)
+	}
+	for round := 0; round < 60 && !allFinalized(sts); round++ {
+		runtime.GC()
+		runtime.Gosched()
+		time.Sleep(50 * time.Millisecond)
 	}
 	for _, st := range sts {
 		if !st.finalized() {
@@ -262,7 +271,7 @@ func (h *hist) checkReleased(final bool) {
 			h.releasedChecks++
 			if !st.reported {
 				st.reported = true
-				h.fail("storage retains removed payload", "%s %d not finalized after 10 GC rounds; released at op %d by %s", st.what, st.id, st.relOp, st.relHow)
+				h.fail("storage retains removed payload", "%s %d not finalized after 70 GC rounds (3 s); released at op %d by %s", st.what, st.id, st.relOp, st.relHow)
 			}
 		} else {
 			h.releasedChecks++
